@@ -82,11 +82,13 @@ func execute(c *Case, dir string) (r run) {
 	defer ep.Shutdown()
 	ctx := context.Background()
 
-	// A poller that records every notification.
-	var mu sync.Mutex
-	var notifications []time.Time
+	// A stand-in for the controller: whenever Poll returns it scans, and what
+	// the scan returns becomes its belief about the disk. Scan and Transition
+	// are serialised (the Endpoint interface is not concurrent apart from Poll).
+	var mu sync.Mutex // guards endpoint Scan/Transition, believed
+	var believed *core.Entry
+	var notifications int
 	pctx, pcancel := context.WithCancel(ctx)
-	defer pcancel()
 	var wg sync.WaitGroup
 	wg.Add(1)
 	go func() {
@@ -96,28 +98,20 @@ func execute(c *Case, dir string) (r run) {
 				return
 			}
 			mu.Lock()
-			notifications = append(notifications, time.Now())
+			notifications++
+			if snap, err, _ := ep.Scan(ctx, nil, false); err == nil {
+				believed = snap.Content
+			}
 			mu.Unlock()
 		}
 	}()
 	defer wg.Wait()
 	defer pcancel()
-	notifiedSince := func(t time.Time) bool {
-		mu.Lock()
-		defer mu.Unlock()
-		for _, n := range notifications {
-			if n.After(t) {
-				return true
-			}
-		}
-		return false
-	}
 
-	var believed *core.Entry // content of the snapshot most recently returned by Scan
 	var lastTransition *Step
-	var divergedAt time.Time // time of the most recent external edit
-	scannedAfterTransition := false
-	scan := func() string {
+	// scan is a foreground scan: nothing else edits the disk while it runs, so
+	// its result must describe the disk exactly.
+	scanLocked := func() string {
 		snap, err, _ := ep.Scan(ctx, nil, false)
 		if err != nil {
 			return fmt.Sprintf("scan fails: %v", err)
@@ -128,10 +122,12 @@ func execute(c *Case, dir string) (r run) {
 			return fmt.Sprintf("scan returned a snapshot that does not describe the disk: %s\n snapshot %s\n disk     %s", d, tree.Render(snap.Content), tree.Render(want))
 		}
 		believed = snap.Content
-		if lastTransition != nil {
-			scannedAfterTransition = true
-		}
 		return ""
+	}
+	scan := func() string {
+		mu.Lock()
+		defer mu.Unlock()
+		return scanLocked()
 	}
 	if v := scan(); v != "" {
 		r.violation = v
@@ -148,8 +144,10 @@ func execute(c *Case, dir string) (r run) {
 				return
 			}
 		case "transition-create", "transition-remove":
+			mu.Lock()
 			// Transitions need a preceding scan.
-			if v := scan(); v != "" {
+			if v := scanLocked(); v != "" {
+				mu.Unlock()
 				r.violation = fmt.Sprintf("step %d: %s", si, v)
 				return
 			}
@@ -157,35 +155,34 @@ func execute(c *Case, dir string) (r run) {
 			var ch *core.Change
 			if st.Op == "transition-create" {
 				if old != nil {
+					mu.Unlock()
 					continue
 				}
 				ch = &core.Change{Path: st.Name, New: tree.D(map[string]*core.Entry{"l": tree.L("keep")})}
 			} else {
 				if old == nil || tree.HasUnsync(old) || st.Name == "keep" {
+					mu.Unlock()
 					continue
 				}
 				ch = &core.Change{Path: st.Name, Old: old}
 			}
 			results, _, _, err := ep.Transition(ctx, []*core.Change{ch})
 			if err != nil {
+				mu.Unlock()
 				r.violation = fmt.Sprintf("step %d: transition fails: %v", si, err)
 				return
 			}
+			// The controller knows what its transition did.
+			believed, _ = tree.ApplyModel(believed, ch.Path, results[0])
+			mu.Unlock()
 			if tree.DeepEqual(results[0], ch.New) {
-				lastTransition, scannedAfterTransition = st, false
+				lastTransition = st
 				r.classes = append(r.classes, "transition-changed-disk")
-				// The statement's first clause: the very next scan must not
-				// be the pre-transition snapshot.
-				if v := scan(); v != "" {
-					r.violation = fmt.Sprintf("step %d (scan right after a transition that changed the disk): %s", si, v)
-					return
-				}
 			}
 		case "external-create":
 			if _, err := os.Lstat(full); err == nil {
 				continue
 			}
-			divergedAt = time.Now()
 			os.Mkdir(full, 0o755)
 			os.Symlink("keep", filepath.Join(full, "l"))
 			lastTransition = nil
@@ -196,16 +193,14 @@ func execute(c *Case, dir string) (r run) {
 			if _, err := os.Lstat(full); err != nil {
 				continue
 			}
-			divergedAt = time.Now()
 			os.RemoveAll(full)
 			lastTransition = nil
 		case "reverse":
 			// Undo exactly what the last transition did.
-			if lastTransition == nil || !scannedAfterTransition {
+			if lastTransition == nil {
 				continue
 			}
 			p := filepath.Join(root, lastTransition.Name)
-			divergedAt = time.Now()
 			if lastTransition.Op == "transition-create" {
 				os.RemoveAll(p)
 			} else {
@@ -216,31 +211,33 @@ func execute(c *Case, dir string) (r run) {
 			r.nontrivial = true
 			lastTransition = nil
 		case "expect-poll":
-			// If the disk differs from what the last scan returned, a
-			// notification must arrive within two polling intervals (+ slack).
+			// Within two polling intervals (+ slack) the controller's belief -
+			// the result of the scan it runs after every poll notification, or
+			// of its own transitions - must equal the disk.
 			obs, _ := disk.Observe(root)
 			now := disk.Expect(obs, scanOpts)
-			if ok, _ := disk.EqualModuloProblems(believed, now); ok {
-				continue
+			mu.Lock()
+			same, _ := disk.EqualModuloProblems(believed, now)
+			mu.Unlock()
+			if !same {
+				r.classes = append(r.classes, "disk-differs-from-belief")
 			}
-			r.classes = append(r.classes, "disk-differs-from-last-scan")
-			start := time.Now()
-			// A notification for this divergence can only be delivered after
-			// the external edit that caused it began.
-			deadline := start.Add(notifyBound)
-			ok := false
-			for time.Now().Before(deadline) {
-				if notifiedSince(divergedAt) {
-					ok = true
-					break
-				}
+			deadline := time.Now().Add(notifyBound)
+			for !same && time.Now().Before(deadline) {
 				time.Sleep(20 * time.Millisecond)
+				mu.Lock()
+				same, _ = disk.EqualModuloProblems(believed, now)
+				mu.Unlock()
 			}
-			if !ok {
-				r.violation = fmt.Sprintf("step %d: the disk (%s) differs from the snapshot last returned by a scan (%s) but no poll notification arrived within %v", si, tree.Render(now), tree.Render(believed), notifyBound)
+			if !same {
+				mu.Lock()
+				bel, n := tree.Render(believed), notifications
+				mu.Unlock()
+				r.violation = fmt.Sprintf("step %d: the disk (%s) differs from what the controller last learned from scans and its own transitions (%s) and no poll notification led to a correcting scan within %v (%d notifications so far)", si, tree.Render(now), bel, notifyBound, n)
 				r.timing = true
 				return
 			}
+			// The staleness clause: a foreground scan now must describe the disk.
 			if v := scan(); v != "" {
 				r.violation = fmt.Sprintf("step %d: %s", si, v)
 				return
@@ -302,7 +299,9 @@ func drawCase(rt *rapid.T, allowReversal bool) *Case {
 			c.Steps = append(c.Steps, &Step{Op: rapid.SampledFrom([]string{"external-create", "external-remove"}).Draw(rt, "ext"), Name: other})
 		case "transition-then-reversal":
 			c.Steps = append(c.Steps, &Step{Op: rapid.SampledFrom([]string{"transition-create", "transition-remove"}).Draw(rt, "tr"), Name: name})
-			c.Steps = append(c.Steps, &Step{Op: "sleep", Ms: rapid.SampledFrom([]int{0, 50, 300}).Draw(rt, "gap")})
+			if gap := rapid.SampledFrom([]int{0, 0, 50, 300}).Draw(rt, "gap"); gap > 0 {
+				c.Steps = append(c.Steps, &Step{Op: "sleep", Ms: gap})
+			}
 			c.Steps = append(c.Steps, &Step{Op: "reverse"})
 		}
 		c.Steps = append(c.Steps, &Step{Op: "expect-poll"})
@@ -329,7 +328,7 @@ func TestPollHistories(t *testing.T) {
 	if ev.ReplayPath() != "" {
 		t.Skip()
 	}
-	rec := ev.New(t, prop, "poll-histories", "rapid: a real local endpoint with a 1 s polling interval (force-poll, or portable = poll + non-recursive watcher) and a background Poll loop; 2-5 blocks of: external create/remove, transition create/remove (each followed by an immediate scan that must equal an independent walk of the disk), transition followed by an external edit elsewhere, transition followed - after the post-transition scan - by an external exact reversal; after each block, if the disk differs from the snapshot last returned by a scan, a poll notification must arrive within 2 intervals + 1.5 s (re-executed three times before reporting); non-trivial: the history contains transition -> scan -> exact reversal")
+	rec := ev.New(t, prop, "poll-histories", "rapid: a real local endpoint with a 1 s polling interval (force-poll, or portable = poll + non-recursive watcher) and a background Poll loop; 2-5 blocks of: external create/remove, transition create/remove (each followed by an immediate scan that must equal an independent walk of the disk), transition followed by an external edit elsewhere, transition followed - after the post-transition scan - by an external exact reversal; a stand-in controller scans after every poll notification; after each block its belief (last scan result, updated by its own transition results) must equal the disk within 2 intervals + 1.5 s (re-executed three times before reporting), and a foreground scan must then equal an independent walk; non-trivial: the history contains transition -> scan -> exact reversal")
 	base := t.TempDir()
 	env, err := sess.NewEnv(filepath.Join(base, "data"))
 	if err != nil {
@@ -378,7 +377,7 @@ func TestPollHistories(t *testing.T) {
 				// when a transition changed the disk and an external edit
 				// followed.
 				for _, cl := range results[i].classes {
-					if cl == "disk-differs-from-last-scan" {
+					if cl == "disk-differs-from-belief" {
 						nt = true
 					}
 				}
